@@ -183,6 +183,17 @@ pub fn search() -> Option<String> {
             }
         }
     }
+    // sizes of zero: a window of 0 rules out the n-grams of its kind only (the dictionary and the other kind still count)
+    for corpus in 0..CORPORA.len() {
+        for (cw, cn, tw, tn) in [(0u8, 0u8, 1u8, 1u8), (0, 1, 1, 1), (0, 2, 2, 1), (1, 1, 0, 0), (1, 1, 0, 1), (2, 0, 1, 0), (0, 0, 0, 0), (0, 2, 0, 2)] {
+            for dict in [0u8, 1, 3] {
+                let solver = (cw as usize + tn as usize + dict as usize) % SOLVERS.len();
+                if let Some(d) = check(cw, cn, tw, tn, dict, corpus, solver) {
+                    return Some(d);
+                }
+            }
+        }
+    }
     println!("STATS {{\"nontrivial\":{},\"rule\":\"every (char window, char n-gram, type window, type n-gram, dictionary bucket, corpus) combination is one case; non-trivial = training returned a model, which was then serialised, decoded, re-read and used by both predictor flavours\"}}", TRAINED.with(|c| c.get()));
     None
 }
